@@ -658,6 +658,8 @@ class StmtMixin:
                 i0 = it.t[1]
                 n = it.t[2]
                 n = S.If(n < i0, i0, n)
+            if ls.prefix and seqv is not None:
+                self.track(st, V(seqv.s, z3.SubSeq(seqv.t, 0, i0.t)))
             self.emit(tag + ".inv.init", s, st, ls.inv(self.inv_ctx(st, pre, extra_for(i0))))
             h = st.copy()
             self.havoc_loop(h, s, ls)
@@ -673,6 +675,12 @@ class StmtMixin:
             body_st, exit_st = self.branch(h, i < n)
             if body_st is not None:
                 x = elem_of(i, body_st)
+                if seqv is not None and isinstance(seqv.s, Seq) and self.folds_for(seqv.s):
+                    p0_ = self.fresh(seqv.s, "before", None)
+                    rest_ = self.fresh(seqv.s, "after", None)
+                    body_st.assume(p0_.t == z3.SubSeq(seqv.t, 0, i.t))
+                    body_st.assume(rest_.t == z3.SubSeq(seqv.t, i.t + 1, z3.Length(seqv.t) - i.t - 1))
+                    self.note_concat(body_st, seqv, [("seq", p0_), ("unit", V(seqv.s.elem, seqv.t[i.t])), ("seq", rest_)])
                 if ls.prefix and seqv is not None:
                     # prefix' = prefix ++ [x]
                     p0 = V(seqv.s, z3.SubSeq(seqv.t, 0, i.t))
